@@ -53,6 +53,10 @@ func runC11(c *Ctx) {
 			if p, msg := try(func() {
 				s, w, err = newStepSim(sc, core, pc)
 				if err == nil {
+					if sc.M <= 4096 && r.Chance(1, 2) {
+						decoySim(sc, r) // a bystander simulator with other limits
+						c.Inc("steps_with_bystander_simulator")
+					}
 					s.RunCycle()
 				}
 			}); p || err != nil {
